@@ -30,7 +30,7 @@ def run(tier, seed):
         'arguments non-negative and its log arguments / real-power bases positive (guarded by Piecewise arms)',
         'float literals are the exact rationals of their shortest repr; SymPy constant folding in floating point is '
         'therefore visible (none occurs on the unchanged tree)',
-        'not decided: that Model.get_md5 covers every string the generator depends on (information flow)',
+        'not decided: that the fields named in the contract of Model.get_md5 are all the generator depends on (information flow)',
     )
     ss, d = exprvc.generate()
     try:
@@ -54,6 +54,16 @@ def run(tier, seed):
         from contracts import C02_binding
         C02_binding.add_obligations(pack, ss, tier)
         C02_binding.bounded_overwrite(pack, ss, d)
+        from contracts.packutil import native_guard
+        from contracts import bounded_md5
+        name = 'C02/andes/core/model/model.py:Model.get_md5/bounded:checksum-reacts-to-a-change-of-every-declared-field-of-every-shipped-model'
+        r = native_guard(pack, name, bounded_md5.run)
+        if r is not None:
+            nf, badf = r
+            pack.bounded.append({'function': 'Model.get_md5 (all shipped models)', 'fields_perturbed': nf, 'counted_as_proved': False,
+                                 'kind': 'bounded native, exhaustive over the shipped library: each declared string / flag changed in place'})
+            if badf:
+                pack.violation(name, {'bounded': True, 'inputs': badf, 'native_cmd': 'contracts/bounded_md5.py'})
     finally:
         shutil.rmtree(d, ignore_errors=True)
     return pack.finish()
